@@ -75,7 +75,7 @@ def families(tier):
     out.append(("gap::parity-or-constant-false", _build({"a": I_, "b": I_, "c": I_, "p": ("xor", ["a", "b"]), "nc": ("not", ["c"]), "z": ("and", ["c", "nc"]), "o": ("or", ["p", "z"])}, outputs=["o"])))
     out.append(("gap::parity3-and-parity2", _build({"a": I_, "b": I_, "c": I_, "d": I_, "e": I_, "p": ("xnor", ["a", "b", "c"]), "q": ("xor", ["d", "e"]), "o": ("nor", ["p", "q"])}, outputs=["o", "p"])))
     keep = ("feedthrough-and-gate", "controlling-constants", "net-and-its-buffer", "reconvergence-through-inverters", "many-outputs-sharing-logic") if tier == "quick" else None
-    out += [(f"corpus::{k}", c) for k, tags, c in corpus(tier, exclude=("x", "names", "wide")) if keep is None or k in keep]
+    out += [(f"corpus::{k}", c) for k, tags, c in corpus(tier, exclude=("x", "names", "joining", "wide")) if keep is None or k in keep]
     return out
 
 
@@ -105,6 +105,23 @@ def run(chk):
             after = c._snapshot()
             chk.ob("C11.A.argument-untouched", f"{kname}", False, file=FILE, func="sensitization_transform / sensitivity_transform / props.*",
                    fact={"problem": "the circuit under analysis was modified by the analyses", "before": str(snap0)[:160], "after": str(after)[:160]}, expect="the argument circuit is left as it was")
+    # names that collide under the transform's own `inv_<startpoint>_<node>` naming of its copies (no helper-like name involved:
+    # startpoints a / a_b next to nodes b_c / c give inv_a + _b_c == inv_a_b + _c)
+    from ..refmodel import build as _b2
+
+    cn = _b2({"a": ("input", []), "b_c": ("input", []), "a_b": ("input", []), "c": ("input", []), "g1": ("and", ["a_b", "c"]), "g2": ("and", ["a", "b_c"]), "o": ("or", ["g1", "g2"])}, outputs=["o"])
+    r = P.call(FILE, "sensitivity_transform", cn, "o")
+    chk.ob("C11.N.copy-naming", "sensitivity_transform::startpoints a, a_b, b_c, c", r[0] == "return", file=FILE, func="sensitivity_transform", line=ft.node.lineno, fact={"result": str(r)[:160]},
+           expect="the transform of a lint-clean circuit (the copies of the circuit are named apart whatever the node names are)")
+    # second pass over the repository's own Circuit class for a few circuits
+    from ..pkgenv import FullStackCaller
+
+    FS = FullStackCaller(repo, overrides=overrides())
+    for kname, c in [x for x in families(chk.tier) if x[0] in ("reconv", "consts", "in-is-out", "corpus::net-and-its-buffer", "gap::parity-or-constant-false")]:
+        try:
+            n_eval += per_circuit(chk, FS, f"{kname}@full-stack", c, fz, ft)
+        except (EvalFail, KeyError) as e:
+            chk.ob("C11.E.result-evaluable", f"{kname}@full-stack", False, file=FILE, func="sensitization_transform/sensitivity_transform", fact={"problem": f"a transform result cannot be evaluated: {e}"})
     chk.ob("C11.A.argument-untouched", "all analysed circuits", n_touched == 0, file=FILE, func="sensitization_transform / sensitivity_transform / props.*", fact={"circuits_modified": n_touched},
            expect="no analysis modifies the circuit it is given")
     from ..stale import circuit_snapshot, stale_state_rule
